@@ -331,7 +331,7 @@ pub fn expr(s: &S) -> SimpleExpr {
         "fn" => {
             let name = l[0].atom();
             let args: Vec<SimpleExpr> = l[1..].iter().map(expr).collect();
-            if shash(s) % 2 == 1 {
+            if shash(s) % 4 != 0 {
                 if let Some(fc) = api_func(name, &args) {
                     return SimpleExpr::FunctionCall(fc);
                 }
